@@ -200,30 +200,41 @@ def c08_t3(repo, res):
     mod = arepo.module(W)
     if mod is None or "getBH_dict_level2" not in mod.funcs:
         raise AnalysisError("anchor vanished: getBH_dict_level2")
-    seen_l1 = {}
+    import dim_rules
+    from repo import lit as _lit
+    n_cls = 0
+    for c in sorted(repo.cls_by_key.values(), key=lambda c: c.name):
+        if "_field_func" not in c.attrs or "_field_func_kwargs_ndim" not in c.attrs:
+            continue
+        table = _lit(c.attrs["_field_func_kwargs_ndim"])
+        if not isinstance(table, dict) or not table:
+            continue
+        n_cls += 1
+        seen_l1 = {}
 
-    def spy(d, args, kwargs, node):
-        for k, v in kwargs.items():
-            if not isinstance(v, Const):
-                seen_l1.setdefault(k, set()).update(org_of(v))
-        return FRESH
-    o, dom, it = run_node(W, mod.funcs["getBH_dict_level2"],
-                          dict(source_type=Const("Tetrahedron"), observers=O({"P:observers"}), field=Const("B"), vertices=O({"P:vertices"}),
-                               polarization=O({"P:polarization"}), position=O({"P:position"})),
-                          summaries={"getBH_level1": spy})
-    res.evaluations += 1
-    if not seen_l1:
-        raise AnalysisError(f"T3: getBH_level1 call in getBH_dict_level2 not reached; skipped={getattr(it, 'skipped', [])[:3]}")
-    for k, orgs in sorted(seen_l1.items()):
-        leak = sorted(o for o in orgs if o.startswith("P:"))
-        res.ob(f"T3:getBH_dict_level2:{k}", not leak, {"rule": "T3", "level1_argument": k, "origins": sorted(orgs)})
-        if leak:
-            res.add(Finding("T3", "magpylib/_src/fields/field_wrap_BH.py", "getBH_dict_level2", f"{k} reaches getBH_level1 with origins {leak}",
+        def spy(d, args, kwargs, node, seen_l1=seen_l1):
+            for k, v in kwargs.items():
+                if not isinstance(v, Const):
+                    seen_l1.setdefault(k, set()).update(org_of(v))
+            return FRESH
+        params = dict(source_type=Const(c.name), observers=O({"P:observers"}), field=Const("B"), position=O({"P:position"}))
+        for k in table:
+            params[k] = O({"P:" + k})
+        o_, dom, it = run_node(W, mod.funcs["getBH_dict_level2"], params, summaries={"getBH_level1": spy})
+        res.evaluations += 1
+        if not seen_l1:
+            raise AnalysisError(f"T3: getBH_level1 call in getBH_dict_level2 not reached for {c.name}; skipped={getattr(it, 'skipped', [])[:3]}")
+        leaks = {k: sorted(x for x in orgs if x.startswith("P:")) for k, orgs in seen_l1.items()}
+        leaks = {k: v for k, v in leaks.items() if v}
+        mutp = [x for x in dom.mutations if x[0].startswith("P:")]
+        res.ob(f"T3:getBH_dict_level2[{c.name}]", not leaks and not mutp,
+               {"rule": "T3", "source_type": c.name, "level1_arguments": {k: sorted(v) for k, v in seen_l1.items()}, "in_place_sinks_on_caller_values": [x[4] for x in mutp]})
+        for k, v in leaks.items():
+            res.add(Finding("T3", "magpylib/_src/fields/field_wrap_BH.py", "getBH_dict_level2", f"{k} reaches getBH_level1 with origins {v}",
                             "a caller-owned array is handed to the computation without a copy"))
-    mutp = [x for x in dom.mutations if x[0].startswith("P:")]
-    res.ob("T3:getBH_dict_level2:no in-place sink on caller values", not mutp, {"rule": "T3", "sinks": [x[4] for x in mutp]})
-    for org, where, line, how, txt in mutp:
-        res.add(Finding("T3", "magpylib/_src/fields/field_wrap_BH.py", where.split(">")[-1], txt, f"caller-owned {org} modified in place ({how})", line))
+        for org, where, line, how, txt in mutp:
+            res.add(Finding("T3", "magpylib/_src/fields/field_wrap_BH.py", where.split(">")[-1], txt, f"caller-owned {org} modified in place ({how})", line))
+    res.require(n_cls >= 10, f"T3: only {n_cls} classes with a functional interface")
     # (4) level 1 / src dict / tiling: no sink on object-held arrays
     for fn, params in (("getBH_level1", dict(field_func=Unknown("ff"), field=Const("B"), position=O({"P:position"}), orientation=O({"P:orientation"}),
                                              observers=O({"P:observers"}))),
